@@ -63,8 +63,8 @@ theorem step_refines {s : State} {w : List Entry} (hi : Inv s) (ha : AbsIs s w) 
       exact ⟨inv_compact hi i j (validGroup_le hv), fun k t => by
         rw [← ha k t]; exact abs_compact s i j (validGroup_le hv) k t⟩
     · simp only [hv, Bool.false_eq_true, if_false]; exact ⟨inv_touch hi, ha⟩
-  · exact ⟨inv_touch hi, by simpa [writesOf, step] using ha⟩
-  · exact ⟨inv_touch hi, by simpa [writesOf, step] using ha⟩
+  · exact ⟨inv_touch hi, fun k t => by simpa [writesOf, step] using ha k t⟩
+  · exact ⟨inv_touch hi, fun k t => by simpa [writesOf, step] using ha k t⟩
 
 theorem writesOf_cons (op : Op) (ops : List Op) : writesOf (op :: ops) = writesOf [op] ++ writesOf ops := by
   cases op <;> simp [writesOf]
